@@ -286,6 +286,12 @@ func pathStr0(v ssa.Value, inPhi map[*ssa.Phi]bool) (root ssa.Value, path string
 			if x.Op != token.MUL {
 				return nil, "", false
 			}
+			// a parameter spilled into a cell because a closure captures it
+			// (t0 = new *T (s); *t0 = s; t1 = *t0): the loaded pointer IS the parameter
+			if sp := spilledParam(x.X); sp != nil {
+				v = sp
+				continue
+			}
 			v = x.X
 		case *ssa.Slice:
 			v = x.X
@@ -2366,4 +2372,54 @@ func (fi *FuncInfo) proveByCasesFrom(goal Lin, at *ssa.BasicBlock, conds0 []Cond
 		}
 	}
 	return true
+}
+
+
+// spilledParam: cell is an Alloc of pointer type that is stored exactly once,
+// with a parameter of the function, and no closure capturing the cell stores
+// into it: loads of the cell yield that parameter.
+func spilledParam(cell ssa.Value) *ssa.Parameter {
+	al, ok := cell.(*ssa.Alloc)
+	if !ok {
+		return nil
+	}
+	if _, isPtr := al.Type().(*types.Pointer).Elem().Underlying().(*types.Pointer); !isPtr {
+		return nil
+	}
+	var par *ssa.Parameter
+	n := 0
+	for _, ref := range *al.Referrers() {
+		switch r := ref.(type) {
+		case *ssa.Store:
+			if r.Addr == ssa.Value(al) {
+				n++
+				par, _ = r.Val.(*ssa.Parameter)
+			}
+		case *ssa.MakeClosure:
+			cf, _ := r.Fn.(*ssa.Function)
+			if cf == nil {
+				return nil
+			}
+			for i, bnd := range r.Bindings {
+				if bnd != ssa.Value(al) || i >= len(cf.FreeVars) {
+					continue
+				}
+				fv := cf.FreeVars[i]
+				for _, b := range cf.Blocks {
+					for _, in := range b.Instrs {
+						if st, isSt := in.(*ssa.Store); isSt && st.Addr == ssa.Value(fv) {
+							return nil
+						}
+					}
+				}
+			}
+		case *ssa.UnOp:
+		default:
+			return nil
+		}
+	}
+	if n != 1 || par == nil {
+		return nil
+	}
+	return par
 }
